@@ -1010,6 +1010,8 @@ class SqliteCollectionManifest(BaseCollectionManifest):
     def to_picklist(self):
         "Convert this manifest to a picklist."
         pl = SignaturePicklist("manifest")
+        # stands for the rows themselves: full (name, md5), not (identifier, md5[:8])
+        pl.preprocess_fn = lambda x: x
         pl.pickset = {pl._get_value_for_manifest_row(row) for row in self.rows}
         return pl
 
